@@ -493,9 +493,17 @@ class PathEngine:
                     return ("global", p2)
             return None
 
+        def elem(y: ast.expr) -> Any:
+            v = scalar(y)
+            if v is None:
+                v = coll(y)
+            if v is None:
+                v = record(y)
+            return v
+
         def coll(x: ast.expr) -> Any:
             if isinstance(x, (ast.Tuple, ast.List, ast.Set)):
-                el = [scalar(y) for y in x.elts]
+                el = [elem(y) for y in x.elts]
                 if any(y is None for y in el):
                     return None
                 return ("set" if isinstance(x, ast.Set) else "tuple", tuple(el))
@@ -504,6 +512,8 @@ class PathEngine:
                 if inner is None:
                     return None
                 return ("tuple" if x.func.id == "tuple" else "set", inner[1])
+            if isinstance(x, ast.Call) and isinstance(x.func, ast.Name) and x.func.id in ("frozenset", "set", "tuple") and not x.args and not x.keywords:
+                return ("tuple" if x.func.id == "tuple" else "set", ())
             return None
 
         def record(x: ast.expr) -> Any:
@@ -514,8 +524,8 @@ class PathEngine:
             k2, p2 = self.prog.lookup_name(x.func.id, None, m)
             if k2 != "class" or self._new_record_class(p2.qual) is None:
                 return None
-            args = [scalar(a) for a in x.args]
-            kws = {kw.arg: scalar(kw.value) for kw in x.keywords if kw.arg is not None}
+            args = [scalar(a) or coll(a) for a in x.args]
+            kws = {kw.arg: (scalar(kw.value) or coll(kw.value)) for kw in x.keywords if kw.arg is not None}
             if any(a is None for a in args) or any(v is None for v in kws.values()) or len(kws) != len(x.keywords):
                 return None
             return ("pure", "new " + p2.name, tuple(args), tuple(sorted(kws.items())))
@@ -926,6 +936,35 @@ class PathEngine:
             self._cache[ck] = out
         return out
 
+    def _pure_sym(self, e: ast.expr, env: dict, store: dict, cfg: CFG) -> Any:
+        """symbolic value of an expression made of names, constants, comparisons, boolean operators and calls of pure
+        builtins / methods only (the tests of a comprehension): evaluated without CFG events"""
+        if isinstance(e, ast.Call):
+            f = e.func
+            name = f.id if isinstance(f, ast.Name) else ("." + f.attr if isinstance(f, ast.Attribute) else None)
+            args = [self._pure_sym(a, env, store, cfg) for a in e.args]
+            if e.keywords or name is None:
+                raise NotEvaluated("call in a comprehension test")
+            if isinstance(f, ast.Name) and name in PURE_BUILTINS:
+                return ("pure", name, tuple(args), ())
+            if isinstance(f, ast.Attribute) and f.attr in PURE_METHODS:
+                return ("pure", name, tuple([self._pure_sym(f.value, env, store, cfg)] + args), ())
+            raise NotEvaluated(f"call of {name} in a comprehension test")
+        if isinstance(e, ast.BoolOp):
+            return ("bool", "and" if isinstance(e.op, ast.And) else "or", tuple(self._pure_sym(v, env, store, cfg) for v in e.values))
+        if isinstance(e, ast.UnaryOp) and isinstance(e.op, ast.Not):
+            return ("not", self._pure_sym(e.operand, env, store, cfg))
+        if isinstance(e, ast.Compare):
+            cur = self._pure_sym(e.left, env, store, cfg)
+            parts = []
+            for op, right in zip(e.ops, e.comparators):
+                r = self._pure_sym(right, env, store, cfg)
+                atom, pol = canon_cmp(CMP[type(op)], cur, r)
+                parts.append(atom if pol else ("not", atom))
+                cur = r
+            return parts[0] if len(parts) == 1 else ("bool", "and", tuple(parts))
+        return self.sym(e, env, store, cfg)
+
     def _exc_truth(self, atom: Any) -> bool | None:
         """tests on the exception caught on this path (an `exc` term carries its kind): `e is None`, `isinstance(e, C)`
         for classes that are kinds of the partition - what a hand-written `__exit__(self, t, e, tb)` does"""
@@ -964,10 +1003,18 @@ class PathEngine:
         """elements of the iterated collection when it is a tuple / list display of tuple displays bound to a local
         of this function (at most 12 rows), else None"""
         it = node.info["iter"]
-        if not isinstance(it, ast.Name) or it.id not in env:
+        if not isinstance(it, ast.Name):
             return None
-        t = env[it.id]
-        if not (isinstance(t, tuple) and t[0] == "tuple" and 0 < len(t[1]) <= 12 and all(isinstance(x, tuple) and x[0] == "tuple" for x in t[1])):
+        if it.id in env:
+            t = env[it.id]
+        else:
+            # a module-level table (tuple of rows bound once): the same decision list, hoisted out of the function
+            try:
+                t = self.sym(it, env, store, cfg)
+            except AnalysisError:
+                return None
+        row = lambda x: isinstance(x, tuple) and x and (x[0] == "tuple" or (x[0] == "pure" and isinstance(x[1], str) and x[1].startswith("new ")))  # noqa: E731
+        if not (isinstance(t, tuple) and t and t[0] == "tuple" and 0 < len(t[1]) <= 16 and all(row(x) for x in t[1])):
             return None
         return list(t[1])
 
@@ -1100,6 +1147,39 @@ class PathEngine:
             # dataclasses.replace(<constructor term>, f=v, ...): the constructor term with those fields changed
             pure, fname = True, "dataclasses.replace"
         expanded = None
+
+        def bind_row(tgt: ast.expr, row: Any, env3: dict) -> bool:
+            if isinstance(tgt, ast.Name):
+                env3[tgt.id] = row
+                return True
+            if isinstance(tgt, (ast.Tuple, ast.List)) and isinstance(row, tuple) and row and row[0] == "tuple" and len(row[1]) == len(tgt.elts):
+                return all(bind_row(t2, r2, env3) for t2, r2 in zip(tgt.elts, row[1]))
+            return False
+
+        if all(t.kind in ("lib", "unknown") for t in targets) and (t0.name or "") == "builtins.next" and 1 <= len(call.args) <= 2 and isinstance(call.args[0], ast.GeneratorExp) and not call.keywords:
+            # `next((value for row in TABLE if test), default)` over a constant table: first match wins - the
+            # conditional chain the loop form would give
+            g = call.args[0]
+            gen = g.generators[0]
+            if len(g.generators) == 1 and not gen.is_async and not has_events_expr(g.elt) and not any(has_events_expr(c) and not _only_pure_calls(c) for c in gen.ifs):
+                try:
+                    coll = self.sym(gen.iter, env, store, cfg)
+                except AnalysisError:
+                    coll = None
+                if isinstance(coll, tuple) and coll and coll[0] == "tuple" and 0 < len(coll[1]) <= 16 and len(call.args) == 2:
+                    try:
+                        chain = self.sym(call.args[1], env, store, cfg)
+                        for el in reversed(coll[1]):
+                            env3 = dict(env)
+                            if not bind_row(gen.target, el, env3):
+                                raise NotEvaluated("row shape")
+                            conds = [self._pure_sym(c, env3, store, cfg) for c in gen.ifs]
+                            val = self.sym(g.elt, env3, store, cfg)
+                            cond = conds[0] if len(conds) == 1 else (("bool", "and", tuple(conds)) if conds else ("const", True))
+                            chain = val if not conds else ("ite", cond, val, chain)
+                        pure, fname, expanded = True, "next", chain
+                    except AnalysisError:
+                        pass
         if pure and fname in ("any", "all") and len(call.args) == 1 and isinstance(call.args[0], (ast.GeneratorExp, ast.ListComp)):
             g = call.args[0]
             if len(g.generators) == 1 and not g.generators[0].ifs and isinstance(g.generators[0].target, ast.Name):
@@ -1347,6 +1427,17 @@ def default_inline() -> Callable[[FuncInfo], bool]:
         return fi.module.name.startswith("redress.") and not fi.module.name.startswith(("redress.testing", "redress.cli", "redress.contrib"))
 
     return pred
+
+
+def _only_pure_calls(e: ast.AST) -> bool:
+    for n in ast.walk(e):
+        if isinstance(n, (ast.Await, ast.NamedExpr, ast.Yield, ast.YieldFrom)):
+            return False
+        if isinstance(n, ast.Call):
+            f = n.func
+            if not ((isinstance(f, ast.Name) and f.id in PURE_BUILTINS) or (isinstance(f, ast.Attribute) and f.attr in PURE_METHODS)) or n.keywords:
+                return False
+    return True
 
 
 def has_events_expr(e: ast.AST) -> bool:
